@@ -262,6 +262,9 @@ def run_one(sim, params):
     if typ == "t2" and sim.chance("t2.big", 0.3):
         kw["big"] = True        # more than one sector: SECTOR SELECT is part of the operations
     case = gen.GENERATORS[typ](sim, **kw)
+    if typ == "t4" and sim.chance("t4.wtx", 0.3):
+        case.wtx_every = sim.pick("t4.wtx.every", [1, 3])      # the card asks for waiting time extensions
+        sim.probe("t4.card_uses_wtx")
     return scenario(sim, params, nfc, typ, case, None)
 
 
@@ -358,6 +361,8 @@ def scenario(sim, params, nfc, typ, case, fixed_os):
         budget = 2 if typ != "t4" else (base["n_retry"] or 0)
         if typ == "t4" and k == PROTOCOL_ERR:
             budget = 0      # ISO-DEP has no recovery from protocol errors: must fail as Type4TagCommandError
+        if typ == "t4" and any(base["cmds"][x][:1] == b"\xF2" for x in range(p, min(p + b, len(base["cmds"])))):
+            budget = 0      # nor from an error on the exchange that carries the S(WTX) response (see C12): reason code only
         r = attempt(p, k, b, kf)
         sim.count("evaluations")
         ov = {"fault": [p, k, b] + ([kf] if kf is not None else [])}
@@ -415,7 +420,7 @@ def scenario(sim, params, nfc, typ, case, fixed_os):
             sim.probe("absorbed")
         elif r["fired"] > budget and r["out"] == "tagerror":
             sim.probe("persisted.tagerror")
-            if op in PRIMITIVES and typ != "t4" and r["val"].errno != ERRNO[k]:
+            if op in PRIMITIVES and r["val"].errno != ERRNO[k]:
                 raise Violation("errno", "%s %s %s" % (base["cls"], op, FATE_NAMES[k]),
                                 "%s under persisting [%s] raised TagCommandError errno %r, expected %r; %r"
                                 % (op, fdesc, r["val"].errno, ERRNO[k], desc), ov)
